@@ -58,6 +58,7 @@ EnvStep ==
      \/ \E c \in Clients : Connect(c) /\ Op([op |-> "Connect", c |-> c])
      \/ \E c \in Clients : L_AcceptConn(c) /\ Op([op |-> "Deliver", c |-> c])
      \/ L_AcceptTimeout /\ Op([op |-> "Timeout"])
+     \/ L_AcceptFail /\ Op([op |-> "AccErr"])
      \/ sdpc = "idle" /\ (S_All \/ S_Clear) /\ Op([op |-> "Shutdown"])
      \/ \E c \in Clients, h \in Hows : EndClient(c) /\ Op([op |-> "End", c |-> c, how |-> h])
      \/ spc # "idle" /\ running /\ B_Check /\ Op([op |-> "Bind2"])
